@@ -3,12 +3,12 @@ package main
 // Engine F (DESIGN §3.F): sibling and writer/reader agreement (AST + types).
 
 import (
-	"golang.org/x/tools/go/ssa"
 	"fmt"
 	"go/ast"
 	"go/constant"
 	"go/token"
 	"go/types"
+	"golang.org/x/tools/go/ssa"
 	"sort"
 	"strings"
 )
